@@ -26,16 +26,14 @@ Definition mant_rest (l : list Z) : list Z :=
   | [] => []
   end.
 
-(* exponent  [eE] [+-]? digit+  at the front of l, consumed only if its value fits int64 *)
+(* exponent  [eE] [+-]? digit+  at the front of l (any number of digits) *)
 Definition exp_len (l : list Z) : Z :=
   match l with
   | c :: t =>
       if (c =? 101) || (c =? 69) then
         let sgn := match t with s :: _ => is_sign s | [] => false end in
         let ds := take_digits (if sgn then tl t else t) in
-        let v := (if match t with s :: _ => s =? 45 | [] => false end then -1 else 1) * dec_value ds in
-        if negb (len ds =? 0) && (min_i64 <=? v) && (v <=? max_i64)
-        then 1 + (if sgn then 1 else 0) + len ds else 0
+        if len ds =? 0 then 0 else 1 + (if sgn then 1 else 0) + len ds
       else 0
   | [] => 0
   end.
@@ -192,43 +190,81 @@ Qed.
 
 (* ---- the exponent --------------------------------------------------------------------------------------------- *)
 
-Lemma parse_int_len t :
-  snd (parse_int t) =
-  (let sgn := match t with s :: _ => is_sign s | [] => false end in
-   let ds := take_digits (if sgn then tl t else t) in
-   let v := (if match t with s :: _ => s =? 45 | [] => false end then -1 else 1) * dec_value ds in
-   if negb (len ds =? 0) && (min_i64 <=? v) && (v <=? max_i64) then (if sgn then 1 else 0) + len ds else 0).
+(* the exponent digit loop consumes every digit, whatever the (saturating) accumulator holds *)
+Lemma pf_expdigits_snd l : forall e j, snd (pf_expdigits l e j) = j + len (take_digits l).
 Proof.
-  destruct (int_decompose t) as (sg & ds & rest & -> & Hsg & Hd & Hs & Hns).
-  rewrite (parse_int_spec_proof sg ds rest Hsg Hd Hs Hns). cbv zeta.
-  destruct Hsg as [->|[->| ->]].
-  - specialize (Hns eq_refl). cbn [app sign_neg].
-    assert (E1 : match ds ++ rest with s :: _ => is_sign s | [] => false end = false).
-    { destruct (ds ++ rest); [reflexivity|exact Hns]. }
-    assert (E2 : match ds ++ rest with s :: _ => s =? 45 | [] => false end = false).
-    { destruct (ds ++ rest) as [|c r]; [reflexivity|]. cbn in Hns. unfold is_sign in Hns. lia. }
-    rewrite E1, E2. rewrite take_digits_app by assumption. rewrite Z.mul_1_l. change (len (@nil Z)) with 0.
-    match goal with |- snd (if ?c then _ else _) = _ => destruct c end; reflexivity.
-  - cbn [app sign_neg tl]. change (is_sign 43) with true. change (43 =? 45) with false. cbv iota.
-    rewrite take_digits_app by assumption. rewrite Z.mul_1_l. rewrite len_cons. change (len (@nil Z)) with 0.
-    match goal with |- snd (if ?c then _ else _) = _ => destruct c end; cbn [snd]; lia.
-  - cbn [app sign_neg tl]. change (is_sign 45) with true. change (45 =? 45) with true. cbv iota.
-    rewrite take_digits_app by assumption. replace (-1 * dec_value ds) with (- dec_value ds) by lia.
-    rewrite len_cons. change (len (@nil Z)) with 0.
-    match goal with |- snd (if ?c then _ else _) = _ => destruct c end; cbn [snd]; lia.
+  induction l as [|c t IH]; intros e j; cbn [pf_expdigits take_digits].
+  - change (len (@nil Z)) with 0. cbn [snd]. lia.
+  - destruct (is_digit c); [rewrite IH, len_cons; lia|]. change (len (@nil Z)) with 0. cbn [snd]. lia.
+Qed.
+
+Lemma pf_expdigits_fst l : forall e j j', fst (pf_expdigits l e j) = fst (pf_expdigits l e j').
+Proof.
+  induction l as [|c t IH]; intros e j j'; cbn [pf_expdigits]; [reflexivity|].
+  destruct (is_digit c); [apply IH|reflexivity].
 Qed.
 
 Lemma pf_exponent_len rest i : snd (pf_exponent rest i) = i + exp_len rest.
 Proof.
   unfold pf_exponent, exp_len. destruct rest as [|c t]; [cbn [snd]; lia|].
   destruct ((c =? 101) || (c =? 69)); [|cbn [snd]; lia].
-  pose proof (parse_int_len t) as H. cbv zeta in H |- *. rewrite H.
+  cbv zeta. change (match t with s :: _ => (s =? 43) || (s =? 45) | [] => false end)
+    with (match t with s :: _ => is_sign s | [] => false end).
   set (sgn := match t with s :: _ => is_sign s | [] => false end).
+  rewrite pf_expdigits_snd.
   set (ds := take_digits (if sgn then tl t else t)).
   pose proof (len_nonneg ds) as Hl.
-  match goal with |- context [if negb (len ds =? 0) && ?a && ?b then _ else _] => destruct (negb (len ds =? 0) && a && b) eqn:E end.
-  - replace (0 <? (if sgn then 1 else 0) + len ds) with true by (destruct sgn; lia). cbn [snd]. lia.
-  - change (0 <? 0) with false. cbn [snd]. lia.
+  destruct (len ds =? 0) eqn:E.
+  - replace (i + 1 + (if sgn then 1 else 0) <? i + 1 + (if sgn then 1 else 0) + len ds) with false by lia. cbn [snd]. lia.
+  - replace (i + 1 + (if sgn then 1 else 0) <? i + 1 + (if sgn then 1 else 0) + len ds) with true by lia. cbn [snd]. lia.
+Qed.
+
+(* below the saturation bound the accumulator is the value of the digits *)
+Lemma pf_expdigits_value ds : all_digits ds -> forall rest e j, stops rest -> 0 <= e ->
+  dec_value_from e ds < 1000000000000000 ->
+  fst (pf_expdigits (ds ++ rest) e j) = dec_value_from e ds.
+Proof.
+  intros Hd. induction Hd as [|c r Hc Hr IH]; intros rest e j Hs He Hb.
+  - cbn [app dec_value_from fold_left]. destruct rest as [|c t]; [reflexivity|]. cbn in Hs. cbn [pf_expdigits]. rewrite Hs. reflexivity.
+  - cbn [app pf_expdigits]. rewrite Hc.
+    change (dec_value_from e (c :: r)) with (dec_value_from (digit_step e c) r) in *.
+    rewrite (byte_digit c Hc). pose proof Hc as Hc'. apply is_digit_range in Hc'.
+    assert (Hmono : digit_step e c <= dec_value_from (digit_step e c) r).
+    { apply dec_value_from_ge; [unfold digit_step; lia|exact Hr]. }
+    unfold digit_step in *. replace (e <? 1000000000000000) with true by lia.
+    rewrite (i64_small (e * 10)) by (unfold min_i64, max_i64; lia).
+    rewrite i64_small by (unfold min_i64, max_i64; lia).
+    apply IH; [exact Hs|lia|exact Hb].
+Qed.
+
+(* the exponent ParseFloat uses:  [eE] sign digits  with value below 10^15 *)
+Lemma pf_exponent_value_proof : forall c sg ds rest i,
+  (c = 101 \/ c = 69) -> sign_ok sg -> all_digits ds -> ds <> [] -> stops rest ->
+  dec_value ds < 1000000000000000 ->
+  fst (pf_exponent (c :: sg ++ ds ++ rest) i) = if sign_neg sg then - dec_value ds else dec_value ds.
+Proof.
+  intros c sg ds rest i Hc Hsg Hd Hne Hs Hb. unfold pf_exponent.
+  replace ((c =? 101) || (c =? 69)) with true by lia. cbv zeta.
+  assert (Hlen : 0 < len ds).
+  { destruct ds; [exfalso; apply Hne; reflexivity|]. rewrite len_cons. pose proof (len_nonneg ds). lia. }
+  pose proof (dec_value_nonneg ds Hd) as Hv0.
+  destruct Hsg as [->|[->| ->]]; cbn [app sign_neg tl].
+  - assert (E : match ds ++ rest with s :: _ => (s =? 43) || (s =? 45) | [] => false end = false /\
+                match ds ++ rest with s :: _ => s =? 45 | [] => false end = false).
+    { destruct ds as [|d ds']; [exfalso; apply Hne; reflexivity|]. cbn [app]. inversion Hd as [|? ? Hd1 _]; subst.
+      apply is_digit_range in Hd1. split; lia. }
+    destruct E as [-> ->]. rewrite pf_expdigits_snd, take_digits_app by assumption.
+    replace (i + 1 + 0 <? i + 1 + 0 + len ds) with true by lia. cbn [fst].
+    apply pf_expdigits_value; try assumption; lia.
+  - change ((43 =? 43) || (43 =? 45)) with true. change (43 =? 45) with false. cbv iota.
+    rewrite pf_expdigits_snd, take_digits_app by assumption.
+    replace (i + 1 + 1 <? i + 1 + 1 + len ds) with true by lia. cbn [fst].
+    apply pf_expdigits_value; try assumption; lia.
+  - change ((45 =? 43) || (45 =? 45)) with true. change (45 =? 45) with true. cbv iota.
+    rewrite pf_expdigits_snd, take_digits_app by assumption.
+    replace (i + 1 + 1 <? i + 1 + 1 + len ds) with true by lia. cbn [fst].
+    rewrite pf_expdigits_value by (try assumption; lia). fold (dec_value ds).
+    apply i64_small. unfold min_i64, max_i64. lia.
 Qed.
 
 (* ---- ParseFloat ------------------------------------------------------------------------------------------------- *)
@@ -360,7 +396,8 @@ Example parse_float_ex :
   | _ => False
   end.
 Proof. vm_compute. split; reflexivity. Qed.
-Example float_prefix_len_ex : float_prefix_len [45; 49; 46; 53; 101; 43; 49; 48; 120] = 8 /\ float_prefix_len [46; 101; 49] = 0 /\ float_prefix_len [49; 101; 120] = 1.
+Example float_prefix_len_ex : float_prefix_len [45; 49; 46; 53; 101; 43; 49; 48; 120] = 8 /\ float_prefix_len [46; 101; 49] = 0 /\ float_prefix_len [49; 101; 120] = 1 /\
+  float_prefix_len [49; 101; 57; 50; 50; 51; 51; 55; 50; 48; 51; 54; 56; 53; 52; 55; 55; 53; 56; 48; 56] = 21.
 Proof. vm_compute. repeat split; reflexivity. Qed.
 Example decimal_consumed_ex : decimal_consumed [45; 49; 46; 53; 46; 50] = 4 /\ decimal_consumed [46; 120] = 0 /\ decimal_consumed [45; 46] = 2.
 Proof. vm_compute. repeat split; reflexivity. Qed.
